@@ -211,7 +211,25 @@ def check_task_transition_dispatch(ctx, rule):
             for was in (0, 1):
                 for now in (0, 1):
                     want = "X" if (v == "x" and was) else "E" if (v == "e" and now) else v
-                    outs = ex.run(etv, [PTR("EMU"), INT(was), INT(now), PTR("TR")],
+                    # arguments by parameter type and name: the event may arrive through the emulator or by value
+                    args, ints = [], [INT(was), INT(now)]
+                    for prm in etv.params:
+                        ct = prm["ctype"].replace(" ", "")
+                        if ct == "structemu*":
+                            args.append(PTR("EMU"))
+                        elif ct == "char*":
+                            args.append(PTR("TR"))
+                        elif ct in ("char", "uint8_t", "unsignedchar"):
+                            args.append(INT(ord(v)))
+                        elif ct == "int" and ints:
+                            args.append(ints.pop(0))
+                        else:
+                            args = None
+                            break
+                    ctx.need(args is not None and not ints and PTR("TR") in args,
+                             "%s: expand_transition_value has parameters this rule cannot map (%s)" %
+                             (model, [prm["ctype"] for prm in etv.params]))
+                    outs = ex.run(etv, args,
                                   {("EMU", F("emu", "ev")): PTR("EV"), ("EV", F("emu_ev", "v")): INT(ord(v))})
                     acc = [o for o in outs if o.kind == "ret" and o.ret == INT(0)]
                     got = sorted({str(o.store.get(("TR", ()))) for o in acc})
